@@ -970,20 +970,20 @@ def root_tag(text):
     if swallow_feature(text):
         return 'lexer.wildcard_after_quoted_text'
     m = mask_texts(text)
-    if re.search(r"'[^']*'!.*'[^']*'!\$?[A-Z]+\$?\d*:", m, re.S):
-        return 'lexer.quoted_sheet_prefix_span'
     if re.search(r'%[ \t\n]*["(\d.A-Za-z$\']', m):
         return 'grammar.percent_as_binary_operator'
-    if re.search(r"(?<![A-Za-z0-9_$.'])!", m):
-        return 'lexer.empty_sheet_prefix'
-    for w in re.findall(r'(?<![A-Za-z0-9_.])\$?([A-Z]+)\$?\d+', m):
-        if col_num(w) > 16384:
-            return 'lexer.column_beyond_XFD'
     try:
         if _count_feature(_P(rlex(text)).parse()):
             return 'translator.COUNT_non_simple_argument'
     except (RefError, RecursionError):
         pass
+    if re.search(r"'[^']*'!\$?[A-Z]+\$?\d+(?![\d:]).*'[^']*'!\$?[A-Z]+\$?\d*:", m, re.S):
+        return 'lexer.quoted_sheet_prefix_span'
+    if re.search(r"(?<![A-Za-z0-9_$.'])!", m):
+        return 'lexer.empty_sheet_prefix'
+    for w in re.findall(r'(?<![A-Za-z0-9_.])\$?([A-Z]+)\$?\d+', m):
+        if col_num(w) > 16384:
+            return 'lexer.column_beyond_XFD'
     return None
 
 
@@ -1094,7 +1094,9 @@ def _dedupe(fails, limit=25):
     def size(f):
         r = f.get('replay') or {}
         c = r.get('case') or {}
-        return c.get('n') or len(r.get('formula') or r.get('variant') or '') or len(f['what'])
+        if c.get('n'):
+            return c['n'] * 10 + (1 if c.get('tail') or c.get('cut') else 0)
+        return len(r.get('formula') or r.get('variant') or '') or len(f['what'])
     for f in sorted(fails, key=lambda f: (f['key'], size(f), f['what'])):
         if f['key'] not in seen:
             seen.add(f['key'])
